@@ -25,6 +25,7 @@ pub struct Weights {
     pub sess: u32,
     pub cache: u32,
     pub crash: u32,
+    pub queue: u32,
 }
 
 pub struct Gen {
@@ -87,10 +88,18 @@ pub fn family_cfg(family_name: &str, seed: u64, big: bool) -> Cfg {
         fuel: 400_000,
         max_commands: if big { 400 } else { 120 },
         lookup_every: 6,
-        fs: if family == "crash" && r.chance(1, 2) {
-            crate::sim::FsCfg { eintr_pct: r.range(0, 10), short_pct: r.range(0, 15), eio_permille: if r.chance(1, 3) { r.range(1, 15) } else { 0 }, enospc_permille: if r.chance(1, 4) { r.range(1, 30) } else { 0 }, subsector }
-        } else {
-            crate::sim::FsCfg { subsector, ..Default::default() }
+        fs: {
+            let mut fs = if family == "crash" && r.chance(1, 2) {
+                crate::sim::FsCfg { eintr_pct: r.range(0, 10), short_pct: r.range(0, 15), eio_permille: if r.chance(1, 3) { r.range(1, 15) } else { 0 }, enospc_permille: if r.chance(1, 4) { r.range(1, 30) } else { 0 }, subsector, explore: 0 }
+            } else {
+                crate::sim::FsCfg { subsector, ..Default::default() }
+            };
+            if family == "crash" {
+                // Own stream, so that turning exploration on shifts no other draw.
+                let mut e = Rng::derive(seed, "cfg-explore");
+                fs.explore = if e.chance(2, 3) { e.range(1, 3) as u32 } else { 0 };
+            }
+            fs
         },
         max_steps,
     }
@@ -99,7 +108,7 @@ pub fn family_cfg(family_name: &str, seed: u64, big: bool) -> Cfg {
 impl Gen {
     pub fn new(cfg: &Cfg) -> Self {
         let mut r = Rng::derive(cfg.seed, "knobs");
-        let mut w = Weights { act: 30, sync_open: 14, resp_poll: 26, deliver: 30, flush: 3, commit: 12, abandon: 1, craft: 0, hello: 3, sess: 0, cache: 1, crash: 0 };
+        let mut w = Weights { act: 30, sync_open: 14, resp_poll: 26, deliver: 30, flush: 3, commit: 12, abandon: 1, craft: 0, hello: 3, sess: 0, cache: 1, crash: 0, queue: 0 };
         let mut poison_pct = 0;
         let mut finalize_pct = r.range(0, 6);
         let mut fail_pct = r.range(0, 10);
@@ -160,6 +169,10 @@ impl Gen {
                 fault_pct = r.range(3, 25);
                 corrupt_pct = r.range(0, 20);
                 w.abandon = 4;
+            }
+            "queue" => {
+                w.queue = 40;
+                w.act = 40;
             }
             "crash" => {
                 w.crash = 8;
@@ -333,6 +346,7 @@ impl Gen {
             if with_graph.is_empty() { 0 } else { w.sess },
             if with_graph.is_empty() { 0 } else { w.cache },
             if file_reps.is_empty() { 0 } else { w.crash },
+            w.queue,
         ];
         if weights.iter().all(|x| *x == 0) {
             return Step::Quiesce;
@@ -428,12 +442,41 @@ impl Gen {
                 let r = *self.sched.pick(&with_graph);
                 Step::CacheAdd { r, peer: self.sched.usize_below(n), sel: Sel::Present(self.wl.below(256) as u32), bogus: if self.wl.chance(1, 6) { self.wl.range(1, 2) as u8 } else { 0 } }
             }
+            12 => {
+                // Few segments and max cuts so that entries collide.
+                let n = self.wl.range(3, 24) as usize;
+                let dup_mode = self.wl.chance(1, 4);
+                let mut ops = Vec::with_capacity(n);
+                for _ in 0..n {
+                    let seg = self.wl.below(4) as u8;
+                    let mc = self.wl.below(6) as u8;
+                    ops.push(match self.wl.below(if dup_mode { 12 } else { 10 }) {
+                        0..=3 => crate::sim::QOp::Push { seg, mc, covered: self.wl.chance(1, 3) },
+                        4..=5 => crate::sim::QOp::Pop,
+                        6 => crate::sim::QOp::DrainAbove { th: mc },
+                        7..=8 => {
+                            let longest = mc.max(self.wl.below(6) as u8);
+                            crate::sim::QOp::CoverUpTo { seg, cov: self.wl.below(u64::from(longest) + 2) as u8, longest }
+                        }
+                        9 => {
+                            if self.wl.chance(1, 3) { crate::sim::QOp::DrainAll } else { crate::sim::QOp::Clear }
+                        }
+                        10 => crate::sim::QOp::PushDup { seg, mc },
+                        _ => crate::sim::QOp::PopDups,
+                    });
+                }
+                Step::QueueDrive { ops }
+            }
             _ => {
                 let r = *self.sched.pick(&file_reps);
                 if sim.crashed[r] {
                     Step::Restart { r }
                 } else {
-                    Step::Crash { r, at: self.sched.below(64) as u32, choices: self.sched.next_u64() }
+                    // A third of the crashes are placed in the window after the next growth of
+                    // the file (preallocation boundary), the rest uniformly over the next calls.
+                    let after_falloc = self.sched.chance(1, 3);
+                    let at = if after_falloc { self.sched.below(8) as u32 } else { self.sched.below(64) as u32 };
+                    Step::Crash { r, at, choices: self.sched.next_u64(), after_falloc }
                 }
             }
         }
